@@ -281,6 +281,33 @@ theorem simple_unmarshal_typed (env : JEnv) (d : Json) (h : docOK env d = true) 
   obtain ⟨hi, v, _, hu, hty, _, _⟩ := doc_roundtrip_partial env true d h
   exact ⟨v, by simp [simpleUnmarshal, hi, hu], hty⟩
 
+/-! ## Sets — not proved; the full statement is false
+
+Values containing sets are outside `roundtrip_partial` / `mirror` (`setFree`).  The decoder
+rebuilds a set through the member hash, and the hash of a number depends on its precision
+(C03 finding), so even against its own type a set of numbers need not come back equal. -/
+
+/-- the set hash of float64 3.9477794105 (the 53-bit branch) and of its 512-bit re-parse, as the
+implementation computes them (re-observed by the harness on every run: probe
+`set-hash-witness`) -/
+def envHash : JEnv :=
+  { norm := id
+    hkey := fun _ p =>
+      match p with
+      | .n (.fin _ _ _ 53) => some (1243578146, "h")
+      | _ => some (1459007788, "h") }
+
+/-- the mirror clause with sets allowed (stored bucket ids agree with the hash oracle) -/
+def mirror_with_sets : Prop :=
+  ∀ (env : JEnv) (top : Bool) (v : Value), rtHyps env v v.ty = true → setsCoherent env v.ty v.v = true →
+    rtCheck env top v v.ty = true
+
+/-- COUNTEREXAMPLE: `SetVal([NumberFloatVal(3.9477794105)])` against `Set(Number)`: written
+as `[3.9477794105]`, read back as the 512-bit number, which lands in another bucket. -/
+theorem mirror_with_sets_counterexample : ¬ mirror_with_sets := fun h =>
+  absurd (h envHash true ⟨.set .number, .sset [1243578146] [.n (.fin false 4444804470517179 (-50) 53)]⟩
+    (by decide +kernel) (by decide +kernel)) (by decide +kernel)
+
 /-! ## Non-vacuity -/
 
 /-- a nested value with nulls, an empty list at an exact position, a fraction, a dynamic
